@@ -100,16 +100,19 @@ def c15 (toks : List String) : String :=
         | none => "bad-op"
         | some server =>
           match ac with
-          | .makeAuthFailed => "other"     -- `make_auth` error is mapped to ConnectionError::Other
+          | .makeAuthFailed => s!"{toHex []} | other"     -- `make_auth` error is mapped to ConnectionError::Other; nothing was sent
           | .ok auth =>
-            match mapOutcome (connect auth req server).2 with
-            | .connected => "connected"
-            | .hostUnreachable => "hostunreachable"
-            | .timeout => "timeout"
-            | .refused => "refused"
-            | .other => "other"
-            | .io => "io"
-            | .authentication => "authentication"
+            -- what the upstream received from the forwarder, and the tunnel error the dialogue's outcome becomes
+            let r := connect auth req server
+            let o := match mapOutcome r.2 with
+              | .connected => "connected"
+              | .hostUnreachable => "hostunreachable"
+              | .timeout => "timeout"
+              | .refused => "refused"
+              | .other => "other"
+              | .io => "io"
+              | .authentication => "authentication"
+            s!"{toHex r.1} | {o}"
       | _ => "bad-op"
   | "udpwrap" :: rest =>
     match rest.reverse with
